@@ -119,11 +119,16 @@ class Built:
                                       self.states[dst]) for nm, srcs, dst in d["trans"]]
         self.sm = sm
         log = self.log
+
+        def rec(tok):
+            if len(log) > 20000:   # an engine that loops instead of recursing must not hang the check
+                raise RecursionError("event budget exhausted")
+            log.append(tok)
         for i, st in enumerate(self.states):
-            st.events.enter.register(lambda _d, i=i: log.append(f"e{i}"))
-            st.events.leave.register(lambda _d, i=i: log.append(f"l{i}"))
+            st.events.enter.register(lambda _d, i=i: rec(f"e{i}"))
+            st.events.leave.register(lambda _d, i=i: rec(f"l{i}"))
         for tr in sm._transitions:
-            tr.events.called.register(lambda _d, nm=tr.name: log.append("c." + nm))
+            tr.events.called.register(lambda _d, nm=tr.name: rec("c." + nm))
         for kind, key, once, reqs in d["handlers"]:
             tok = ("c." + key) if kind == "c" else f"{kind}{key}"
 
